@@ -84,6 +84,8 @@ def cases(draw):
         opts['package'] = ['pk', 'pkx']
         if 'pk.sub' in (spec.get('package_paths') or ()) and not any(m.get('pkg') == 'pk.sub' for m in spec['modules']):
             spec['package_paths'].remove('pk.sub')
+    if draw(st.integers(0, 4)) == 0:
+        opts['positional'] = ['.', draw(st.sampled_from(tnames))]
     opts['repeat'] = draw(st.sampled_from([1, 1, 2]))
     opts['shuffle'] = draw(st.one_of(st.none(), st.integers(0, 9999)))
     mode = draw(st.sampled_from(['j2', 'j3', 'j1-resume', 'resume']))
@@ -105,12 +107,18 @@ def pkg_args(spec, opts):
     args = []
     for pkg in opts.get('package') or ():
         args += ['-s', '.'.join(spec['mp'] + part for part in pkg.split('.'))]
+    if opts.get('positional'):
+        # the deprecated positional spelling "MODULE TEST" of the filters ('.' = any module), given besides the options
+        args += list(opts['positional'])
     return args
 
 
 def expected(spec, opts):
     at = opts.get('at_level')
-    return model.select(spec, test_pats=opts.get('test') or None, module_pats=opts.get('module') or None,
+    tests = list(opts.get('test') or ())
+    if opts.get('positional'):
+        tests.append(opts['positional'][1])
+    return model.select(spec, test_pats=tests or None, module_pats=opts.get('module') or None,
                         packages=opts.get('package') or None,
                         layer_pats=opts.get('layer') or None, at_level=1 if at is None else at,
                         all_levels=bool(opts.get('all')), only_level=opts.get('only_level'),
@@ -284,7 +292,7 @@ class Modes(Part):
                 check_run('relative-path-' + mode, spec3, w3, run_r, want3, repeat, viol)
         total = sum(1 for _ in gen.iter_tests(base))
         nsel = sum(len(v) for v in want.values())
-        labels = [mode]
+        labels = [mode] + (['positional-test-filter' + ('+t' if opts.get('test') else '')] if opts.get('positional') else [])
         if relrun:
             labels.append('relative-path+chdir')
             if len(traceana.by_pid(run_r.trace)) > 1:
